@@ -447,6 +447,26 @@ func c08core(c *Ctx, a *alphAnchors) {
 // c08attest: an attestation-shaped message is kept only if validated against the token contract.
 func c08attest(c *Ctx, a *alphAnchors) {
 	p, R := a.p, c.R
+	// the metadata an attestation is compared with is read from the node for every check: every
+	// successful return of GetTokenInfo follows a MultiCallContract request of this invocation (a
+	// result remembered from an earlier check would let a stale attestation through after the
+	// token contract changed, and would differ between guardians)
+	if gti := p.Method(pkgAlph, "Client", "GetTokenInfo"); gti != nil {
+		nfresh := 0
+		for _, r := range acceptingReturns(gti) {
+			if _, isGlobal := strip(r.Results[0]).(*ssa.Global); isGlobal {
+				// the native token's metadata is a package-level constant, not something remembered
+				continue
+			}
+			nfresh++
+			fresh := facts.Before(r, func(i ssa.Instruction) bool {
+				cl, ok := i.(*ssa.Call)
+				return ok && facts.CalleeName(&cl.Call) == "(*N/alephium.Client).MultiCallContract"
+			})
+			R.Check("C08.attest", R.Key("C08.attest", shortFn(gti), "fresh-metadata"), c.rel(p.Pos(instrPos(r))), "token metadata is fetched from the node on every call (no cached answer)", fresh, "a successful return is reachable without asking the node: the comparison uses remembered metadata")
+		}
+		R.Floor("C08.attest.fresh-metadata", nfresh, 1)
+	}
 	// polling path: append of `unconfirmed` in handleUnconfirmedEvents
 	chk := func(fn *ssa.Function, sinkPred func(i ssa.Instruction) (string, bool), construct string) {
 		n := 0
